@@ -4,7 +4,7 @@ from harness import check, replay
 CFGS = {
     "quick": ["SumProduct_scaled", "SumProduct_logaddexp", "SumProduct_maxadd", "SumProduct_logaddexp_param", "SumProduct_crossed2"],
     "thorough": ["SumProduct_scaled", "SumProduct_logaddexp_scaled", "SumProduct_addmul3", "SumProduct_logaddexp3", "SumProduct_maxadd", "SumProduct_minadd",
-                 "SumProduct_maxmul", "SumProduct_orand", "SumProduct_addmul_param", "SumProduct_logaddexp_param", "SumProduct_crossed2", "SumProduct_crossed3"],
+                 "SumProduct_maxmul", "SumProduct_orand", "SumProduct_addmul_param", "SumProduct_logaddexp_param", "SumProduct_crossed2", "SumProduct_crossed3", "SumProduct_scaled123"],
 }
 
 
